@@ -29,35 +29,17 @@ Qed.
 
 (* ======================================================================================== *)
 (* Stage A: which variables are free, which are forced                                       *)
-Lemma path_app b : forall ds1 a m ds2 t, path b a ds1 m -> path b m ds2 t -> path b a (ds1 ++ ds2) t.
-Proof.
-  induction ds1 as [|xc ds1 IH]; intros a m ds2 t P1 P2; cbn [path app] in *.
-  - subst. exact P2.
-  - destruct P1 as (A & B & D & P1). repeat split; try assumption. apply (IH _ m); assumption.
-Qed.
-
-Lemma parent_child b j p : is_parent b j p -> exists c, child b j c = p.
-Proof. intros [H|H]; [exists false|exists true]; exact H. Qed.
-
-(* every decision node is reachable from the root (library layout: nothing unreachable) *)
-Lemma reach_all b : Canonical b -> forall k p, 2 <= p -> p < size b -> (N.to_nat (size b - p) <= k)%nat ->
-  exists ds, path b (root b) ds p.
-Proof.
-  intros C. induction k as [|k IH]; intros p Hp Hlt Hk; [lia|].
-  destruct (N.eq_dec p (root b)) as [->|Hne]; [exists []; reflexivity|].
-  destruct (has_parent b p C ltac:(lia) ltac:(unfold root in *; lia)) as (j & J1 & J2 & J3 & J4).
-  destruct (IH j J1 J3 ltac:(lia)) as (ds & P). destruct (parent_child b j p J4) as (c & Hc).
-  exists (ds ++ [(var_of b j, c)]). apply (path_app b ds _ j); [exact P|].
-  cbn [path fst snd]. repeat split; try assumption.
-Qed.
+(* every decision node is reachable from the root (part of the benign shape; for the library layout: canonical_benign) *)
+Lemma reach_all b : Benign b -> forall p, 2 <= p -> p < size b -> exists ds, path b (root b) ds p.
+Proof. intros (_ & _ & _ & RA). exact RA. Qed.
 
 (* a root-to-1 path through the branch c of node p; it tests no variable strictly between p and its child *)
-Lemma through b p c : Canonical b -> 2 <= p -> p < size b -> child b p c <> 0 ->
+Lemma through b p c : Benign b -> 2 <= p -> p < size b -> child b p c <> 0 ->
   exists ds, path b (root b) ds 1 /\ In (var_of b p, c) ds /\
     forall x, var_of b p < x -> x < var_of b (child b p c) -> ~ In x (map fst ds).
 Proof.
   intros C Hp Hlt Hnz. pose proof C as (W & R & _).
-  destruct (reach_all b C _ p Hp Hlt (Nat.le_refl _)) as (ds1 & P1).
+  destruct (reach_all b C p Hp Hlt) as (ds1 & P1).
   destruct (child_valid b p c W Hp Hlt) as (Vq & Hv).
   destruct (nonzero_path b _ W R Vq Hnz) as (ds2 & P2).
   exists (ds1 ++ (var_of b p, c) :: ds2). split; [|split].
@@ -93,7 +75,7 @@ Proof.
     (split; [apply (path_eval b ds _ W P); apply follows_upd; assumption|apply upd_same]).
 Qed.
 
-Lemma possible_branch b p c : Canonical b -> 2 <= p -> p < size b -> child b p c <> 0 -> possible b (var_of b p) c.
+Lemma possible_branch b p c : Benign b -> 2 <= p -> p < size b -> child b p c <> 0 -> possible b (var_of b p) c.
 Proof.
   intros C Hp Hlt Hnz. pose proof C as (W & _). destruct (through b p c C Hp Hlt Hnz) as (ds & P & Hin & _).
   destruct (path_vars b W ds (root b) 1 (valid_root b W) P) as (_ & _ & _ & N).
@@ -101,14 +83,14 @@ Proof.
   apply (tval_follows ds false N). exact Hin.
 Qed.
 
-Lemma free_edge b p c x : Canonical b -> 2 <= p -> p < size b -> child b p c <> 0 ->
+Lemma free_edge b p c x : Benign b -> 2 <= p -> p < size b -> child b p c <> 0 ->
   var_of b p < x -> x < var_of b (child b p c) -> free b x.
 Proof.
   intros C Hp Hlt Hnz H1 H2. pose proof C as (W & _). destruct (through b p c C Hp Hlt Hnz) as (ds & P & _ & Hno).
   apply (free_untested b ds x W P). apply Hno; assumption.
 Qed.
 
-Lemma free_above_root b x : Canonical b -> is_false b = false -> x < var_of b (root b) -> free b x.
+Lemma free_above_root b x : Benign b -> is_false b = false -> x < var_of b (root b) -> free b x.
 Proof.
   intros C Hf Hx. pose proof C as (W & R & _).
   destruct (nonzero_path b (root b) W R (valid_root b W) (root_nonzero b W Hf)) as (ds & P).
@@ -137,7 +119,7 @@ Proof.
       exfalso. apply (NS p cc Hge Vp Hnz). split; lia.
 Qed.
 
-Lemma node_with_var b x : wf b -> reduced b -> x < nvars b -> no_skip b x ->
+Lemma node_with_var b x : wf b -> nz b -> x < nvars b -> no_skip b x ->
   forall fuel p, valid b p -> p <> 0 -> enough b p fuel -> var_of b p <= x ->
   exists q, 2 <= q /\ q < size b /\ var_of b q = x.
 Proof.
@@ -202,7 +184,7 @@ Definition rng (b : bdd) (n : node) : N * N :=
   else (nvar n, N.max (var_of b (nhigh n)) (var_of b (nlow n))).
 Definition in_rng (b : bdd) (n : node) (x : N) : Prop := fst (rng b n) <= x /\ x < snd (rng b n).
 
-Lemma in_rng_free b n x : Canonical b -> is_node b n -> in_rng b n x -> free b x.
+Lemma in_rng_free b n x : Benign b -> is_node b n -> in_rng b n x -> free b x.
 Proof.
   intros C (p & Hp & Hlt & <-) (H1 & H2). pose proof C as (W & R & _).
   pose proof (kids_not_both_zero b p R Hp Hlt) as K. unfold rng in H1, H2. fold (var_of b p) in H1, H2.
@@ -453,7 +435,7 @@ Proof. unfold mk, all_same. destruct (Nat.lt_ge_cases (N.to_nat x) (N.to_nat nv)
   - apply nth_overflow. rewrite repeat_length. lia.
 Qed.
 
-Theorem necessary_clause_spec b : Canonical b -> is_false b = false ->
+Theorem necessary_clause_spec_benign b : Benign b -> is_false b = false ->
   exists pv, necessary_clause b = Ok (Some pv) /\
     forall x c, pv_get pv x = Some c <-> (x < nvars b /\ forall v, eval b v = true -> v x = c).
 Proof.
@@ -531,7 +513,7 @@ Proof.
     split.
     + intros Hc. split; [exact Hx|]. apply Fwd; assumption.
     + intros (_ & Hfix).
-      destruct (nonzero_sat b (root b) W R (valid_root b W) (root_nonzero b W Hf)) as (v0 & Hv0).
+      destruct (nonzero_sat_benign b (root b) W R (valid_root b W) (root_nonzero b W Hf)) as (v0 & Hv0).
       assert (Ex : mk any2 x = false).
       { destruct (mk any2 x) eqn:Ex; [|reflexivity]. exfalso. destruct (Sound x Ex) as (v & w & Hv & Hw & Hne).
         rewrite (Hfix v Hv), (Hfix w Hw) in Hne. congruence. }
@@ -549,13 +531,23 @@ Proof.
       destruct Hcell as (c' & Hc'). rewrite Hc'. f_equal.
       rewrite <- (Fwd x c' Hx Hc' v0 Hv0). apply Hfix. exact Hv0.
 Qed.
+Print Assumptions necessary_clause_spec_benign.
+
+Theorem necessary_clause_spec b : Canonical b -> is_false b = false ->
+  exists pv, necessary_clause b = Ok (Some pv) /\
+    forall x c, pv_get pv x = Some c <-> (x < nvars b /\ forall v, eval b v = true -> v x = c).
+Proof. intros C. apply necessary_clause_spec_benign. apply canonical_benign. exact C. Qed.
 Print Assumptions necessary_clause_spec.
 
 (* in particular the unreachable!() arm is never taken and nothing panics *)
-Corollary necessary_clause_no_panic b : Canonical b -> exists r, necessary_clause b = Ok r.
+Corollary necessary_clause_no_panic_benign b : Benign b -> exists r, necessary_clause b = Ok r.
 Proof.
   intros C. destruct (is_false b) eqn:Hf.
   - exists None. now apply necessary_clause_none.
-  - destruct (necessary_clause_spec b C Hf) as (pv & H & _). now exists (Some pv).
+  - destruct (necessary_clause_spec_benign b C Hf) as (pv & H & _). now exists (Some pv).
 Qed.
+Print Assumptions necessary_clause_no_panic_benign.
+
+Corollary necessary_clause_no_panic b : Canonical b -> exists r, necessary_clause b = Ok r.
+Proof. intros C. apply necessary_clause_no_panic_benign. apply canonical_benign. exact C. Qed.
 Print Assumptions necessary_clause_no_panic.
